@@ -41,85 +41,75 @@ Local Ltac crunch_step :=
 Local Ltac crunch := repeat (progress crunch_step); try discriminate; try reflexivity; try lia.
 
 (* ================================================================================ *)
-(* level A, for every table of comparison sites                                      *)
+(* level A, for every table of comparison sites and every class of request           *)
 
-(* A handler that looks at the quantity delimiting the request refuses every request whose
-   body is above the limit -- whatever the sender announces, misannounces or omits. *)
-Lemma never_processed_covered (sites : site_table) tr max decl sent n :
-  covers tr (sites tr) = true -> framed tr decl sent = Some n -> n > max ->
-  rejected (admission sites tr max decl sent) = true.
+(* A handler that, on the path requests of this class take, looks at the quantity delimiting
+   the request refuses every such request whose body is above the limit -- whatever method or
+   index word it carries, whatever its sender announces, misannounces or omits. *)
+Lemma never_processed_covered (sites : site_table) tr max k decl sent n :
+  covers tr (is_none decl) (sites tr k (is_none decl)) = true ->
+  framed tr k decl sent = Some n -> n > max ->
+  rejected (admission sites tr max k decl sent) = true.
 Proof.
   intros Hc Hf Hn. unfold covers in Hc. unfold admission, over.
-  destruct tr; destruct decl as [d|]; cbn [framed content_length] in *; sites_cases; crunch.
+  destruct tr; destruct decl as [d|]; cbn [framed content_length is_none] in *;
+    try (destruct (r_flag k); [discriminate|]); sites_cases; crunch.
 Qed.
 
 (* ... and then nothing runs: no IO plugin, no invoke plugin, no function *)
-Lemma rejected_log_empty sites tr max decl sent valid :
-  rejected (admission sites tr max decl sent) = true ->
-  snd (serve sites tr max decl sent valid) = [].
+Lemma rejected_log_empty sites tr max k decl sent valid :
+  rejected (admission sites tr max k decl sent) = true ->
+  snd (serve sites tr max k decl sent valid) = [].
 Proof.
-  unfold serve. cbn [snd]. destruct (admission sites tr max decl sent); cbn; intros H;
-    try discriminate; reflexivity.
-Qed.
-
-Lemma not_process_log_empty sites tr max decl sent valid :
-  is_process (admission sites tr max decl sent) = false ->
-  snd (serve sites tr max decl sent valid) = [].
-Proof.
-  unfold serve. cbn [snd]. destruct (admission sites tr max decl sent); cbn; intros H;
+  unfold serve. cbn [snd]. destruct (admission sites tr max k decl sent); cbn; intros H;
     try discriminate; reflexivity.
 Qed.
 
 Lemma rejected_not_process v : rejected v = true -> is_process v = false.
 Proof. destruct v; cbn; intros H; try discriminate; reflexivity. Qed.
 
-(* A table that does not make the handler look at that quantity lets an oversized request
-   through: the condition of never_processed_covered is exact. *)
-Lemma never_processed_uncovered (sites : site_table) tr :
-  covers tr (sites tr) = false ->
-  exists max decl sent n m, framed tr decl sent = Some n /\ n > max /\
-    admission sites tr max decl sent = Process m.
+(* A table that does not make the handler look at that quantity on the path of some class of
+   requests lets an oversized request of that class through: the condition is exact. *)
+Lemma never_processed_uncovered (sites : site_table) tr k chunked :
+  expressible tr k chunked = true ->
+  covers tr chunked (sites tr k chunked) = false ->
+  exists max decl sent n m, is_none decl = chunked /\ framed tr k decl sent = Some n /\ n > max /\
+    admission sites tr max k decl sent = Process m.
 Proof.
-  intros Hc. unfold covers in Hc.
-  destruct tr.
-  - exists 10, None, 100, 100, 100. unfold admission, over. cbn [framed]. rewrite Hc.
-    repeat split; try reflexivity; lia.
-  - exists 10, None, 100, 100, 100. unfold admission, over. cbn [framed content_length]. rewrite Hc.
-    rewrite andb_false_r. repeat split; try reflexivity; lia.
-  - exists 10, None, 100, 100, 100. unfold admission, over. cbn [framed content_length]. rewrite Hc.
-    rewrite andb_false_r. repeat split; try reflexivity; lia.
-  - apply orb_false_elim in Hc as [H1 H2].
-    exists 10, (Some 100), 100, 100, 100. unfold admission, over. cbn [framed]. rewrite H1, H2.
-    repeat split; try reflexivity; lia.
-  - apply orb_false_elim in Hc as [H1 H2].
-    exists 10, (Some 100), 100, 100, 100. unfold admission, over. cbn [framed]. rewrite H1, H2.
-    repeat split; try reflexivity; lia.
-  - exists 10, None, 100, 100, 100. unfold admission, over. cbn [framed]. rewrite Hc.
-    repeat split; try reflexivity; lia.
-  - apply orb_false_elim in Hc as [H1 H2].
-    exists 10, (Some 100), 100, 100, 100. unfold admission, over. cbn [framed]. rewrite H1, H2.
-    repeat split; try reflexivity; lia.
+  intros He Hc. unfold covers in Hc. unfold expressible in He.
+  destruct tr; destruct chunked; cbn [negb] in He; try discriminate;
+    try (apply orb_false_elim in Hc as [H1 H2]).
+  all: try (exists 10, None, 100, 100, 100; unfold admission, over; cbn [framed content_length is_none];
+            try (destruct (r_flag k); [discriminate|]);
+            rewrite ?Hc, ?H1, ?H2, ?andb_false_r; cbn [andb orb];
+            repeat split; try reflexivity; lia).
+  all: exists 10, (Some 100), 100, 100, 100; unfold admission, over; cbn [framed content_length is_none];
+       try (destruct (r_flag k); [discriminate|]);
+       rewrite ?Hc, ?H1, ?H2, ?andb_false_r; cbn [andb orb negb];
+       repeat split; try reflexivity; lia.
 Qed.
 
 (* A request at or below the limit whose sender tells the truth about its length (or, where
-   the transport allows, leaves it out) is handed to Service.Handle whole -- under every table. *)
-Lemma processed_at_limit (sites : site_table) tr max decl sent :
-  truthful tr decl sent = true -> 0 <= sent <= max ->
-  admission sites tr max decl sent = Process sent /\ framed tr decl sent = Some sent.
+   the transport allows, leaves it out) is handed to Service.Handle whole -- under every table,
+   whatever its method or index word. *)
+Lemma processed_at_limit (sites : site_table) tr max k decl sent :
+  truthful tr k decl sent = true -> 0 <= sent <= max ->
+  admission sites tr max k decl sent = Process sent /\ framed tr k decl sent = Some sent.
 Proof.
   intros Ht Hs. unfold admission, over.
-  destruct tr; destruct decl as [d|]; cbn [truthful framed content_length] in *;
-    try discriminate; zbool; subst; try discriminate; sites_cases; cbn [andb orb]; zbool;
+  destruct tr; destruct decl as [d|]; cbn [truthful framed content_length is_none] in *;
+    try discriminate; try (destruct (r_flag k); [discriminate|]; cbn [negb andb] in Ht);
+    zbool; subst; try discriminate; sites_cases; cbn [andb orb]; zbool;
     cbn [andb orb]; try (split; reflexivity); try lia;
     try (assert (sent = 0) by lia; subst; split; reflexivity).
 Qed.
 
-Lemma processed_log sites tr max decl sent valid :
-  truthful tr decl sent = true -> 0 <= sent <= max ->
-  snd (serve sites tr max decl sent valid) = handle_log valid sent.
+Lemma processed_log sites tr max k decl sent valid :
+  truthful tr k decl sent = true -> 0 <= sent <= max ->
+  snd (serve sites tr max k decl sent valid) = handle_log valid sent.
 Proof.
   intros Ht Hs. unfold serve. cbn [snd].
-  destruct (processed_at_limit sites tr max decl sent Ht Hs) as [-> _]. reflexivity.
+  destruct (processed_at_limit sites tr max k decl sent Ht Hs) as [-> _]. reflexivity.
 Qed.
 
 (* every rejection is decoded to ErrRequestEntityTooLarge by the client of that transport *)
@@ -152,61 +142,82 @@ Proof.
   - intros ->. rewrite bytes_eqb_refl. reflexivity.
 Qed.
 
-(* ================================================================================ *)
-(* level A, the pinned table                                                         *)
+(* the statement the property makes, per transport and class of request *)
+Definition never_processed_stmt (sites : site_table) (tr : transport) (k : rclass) (chunked : bool) : Prop :=
+  forall max decl sent n valid, is_none decl = chunked -> framed tr k decl sent = Some n -> n > max ->
+    is_process (admission sites tr max k decl sent) = false /\
+    snd (serve sites tr max k decl sent valid) = [].
 
-Lemma pinned_covers tr : covers tr (pinned_sites tr) = true.
-Proof. destruct tr; reflexivity. Qed.
-
-Lemma original_covers tr : covers tr (original_sites tr) = true <-> In tr [Mock; Tcp; Unix; Websocket; Udp].
+Lemma never_processed_stmt_covered sites tr k chunked :
+  covers tr chunked (sites tr k chunked) = true -> never_processed_stmt sites tr k chunked.
 Proof.
-  destruct tr; cbn; split; intros H; try reflexivity; try discriminate; auto 10;
-    repeat (destruct H as [H|H]; try discriminate); contradiction.
-Qed.
-
-(* the pinned tree: all seven transports, every limit, size and declaration *)
-Lemma never_processed_pinned tr max decl sent n :
-  framed tr decl sent = Some n -> n > max ->
-  rejected (admission pinned_sites tr max decl sent) = true.
-Proof. apply never_processed_covered. apply pinned_covers. Qed.
-
-(* the statement the property makes, per transport *)
-Definition never_processed_stmt (sites : site_table) (tr : transport) : Prop :=
-  forall max decl sent n valid, framed tr decl sent = Some n -> n > max ->
-    is_process (admission sites tr max decl sent) = false /\
-    snd (serve sites tr max decl sent valid) = [].
-
-Lemma never_processed_stmt_covered sites tr :
-  covers tr (sites tr) = true -> never_processed_stmt sites tr.
-Proof.
-  intros Hc max decl sent n valid Hf Hn.
-  pose proof (never_processed_covered sites tr max decl sent n Hc Hf Hn) as R.
+  intros Hc max decl sent n valid Hd Hf Hn. subst chunked.
+  pose proof (never_processed_covered sites tr max k decl sent n Hc Hf Hn) as R.
   split; [apply rejected_not_process; exact R|apply rejected_log_empty; exact R].
 Qed.
 
-Lemma never_processed_stmt_iff sites tr :
-  never_processed_stmt sites tr <-> covers tr (sites tr) = true.
+Lemma never_processed_stmt_iff sites tr k chunked : expressible tr k chunked = true ->
+  (never_processed_stmt sites tr k chunked <-> covers tr chunked (sites tr k chunked) = true).
 Proof.
-  split; [|apply never_processed_stmt_covered].
-  intros H. destruct (covers tr (sites tr)) eqn:Hc; [reflexivity|exfalso].
-  destruct (never_processed_uncovered sites tr Hc) as (max & decl & sent & n & m & Hf & Hn & Ha).
-  destruct (H max decl sent n true Hf Hn) as [Hp _]. rewrite Ha in Hp. discriminate.
+  intros He. split; [|apply never_processed_stmt_covered].
+  intros H. destruct (covers tr chunked (sites tr k chunked)) eqn:Hc; [reflexivity|exfalso].
+  destruct (never_processed_uncovered sites tr k chunked He Hc) as (max & decl & sent & n & m & Hd & Hf & Hn & Ha).
+  destruct (H max decl sent n true Hd Hf Hn) as [Hp _]. rewrite Ha in Hp. discriminate.
 Qed.
 
-(* historical witnesses: before 72ffd23 / e18593a a 100-byte chunked POST against a limit of 10 ran *)
+(* ================================================================================ *)
+(* level A, the pinned table                                                         *)
+
+Lemma pinned_covers tr k chunked : covers tr chunked (pinned_sites tr k chunked) = true.
+Proof. destruct tr, chunked; reflexivity. Qed.
+
+(* the pinned tree: all seven transports, every limit, size, declaration, method, index word *)
+Lemma never_processed_pinned tr max k decl sent n :
+  framed tr k decl sent = Some n -> n > max ->
+  rejected (admission pinned_sites tr max k decl sent) = true.
+Proof. apply never_processed_covered. apply pinned_covers. Qed.
+
+(* historical: before 72ffd23 / e18593a the HTTP handlers were covered for requests announcing a
+   length and not for chunked ones *)
+Lemma original_covers tr k chunked : covers tr chunked (original_sites tr k chunked) = true <->
+  ~ (In tr [NetHttp; FastHttp] /\ chunked = true).
+Proof.
+  destruct tr, chunked; cbn; split; intros H; try reflexivity; try discriminate;
+    try (intros [[Hx|[Hx|[]]] Hy]; discriminate);
+    exfalso; apply H; auto.
+Qed.
+
 Lemma historical_chunked_bypass :
-  serve original_sites NetHttp 10 None 100 true = (Process 100, [EvIOPlugin 100; EvInvoke]) /\
-  serve original_sites FastHttp 10 None 100 true = (Process 100, [EvIOPlugin 100; EvInvoke]) /\
-  serve pinned_sites NetHttp 10 None 100 true = (Reject413, []) /\
-  serve pinned_sites FastHttp 10 None 100 true = (Reject413, []).
+  let k := {| r_get := false; r_flag := false |} in
+  serve original_sites NetHttp 10 k None 100 true = (Process 100, [EvIOPlugin 100; EvInvoke]) /\
+  serve original_sites FastHttp 10 k None 100 true = (Process 100, [EvIOPlugin 100; EvInvoke]) /\
+  serve pinned_sites NetHttp 10 k None 100 true = (Reject413, []) /\
+  serve pinned_sites FastHttp 10 k None 100 true = (Reject413, []).
+Proof. repeat split. Qed.
+
+(* tables with class-dependent sites: the class the guard leaves out is not covered, and the
+   exactness lemma produces the request that gets through *)
+Lemma example_method_sites_gap :
+  covers NetHttp false (example_method_sites NetHttp {| r_get := true; r_flag := false |} false) = false /\
+  covers NetHttp false (example_method_sites NetHttp {| r_get := false; r_flag := false |} false) = true /\
+  covers NetHttp true (example_method_sites NetHttp {| r_get := true; r_flag := false |} true) = true /\
+  admission example_method_sites NetHttp 10 {| r_get := true; r_flag := false |} (Some 100) 100 = Process 100 /\
+  admission example_method_sites NetHttp 10 {| r_get := false; r_flag := false |} (Some 100) 100 = Reject413.
+Proof. repeat split. Qed.
+
+Lemma example_flag_sites_gap :
+  covers Tcp false (example_flag_sites Tcp {| r_get := false; r_flag := true |} false) = false /\
+  covers Tcp false (example_flag_sites Tcp {| r_get := false; r_flag := false |} false) = true /\
+  admission example_flag_sites Tcp 10 {| r_get := false; r_flag := true |} (Some 100) 100 = Process 100 /\
+  admission example_flag_sites Tcp 10 {| r_get := false; r_flag := false |} (Some 100) 100 = RejectInBand.
 Proof. repeat split. Qed.
 
 (* udp after fix 5ee4f50: the datagram that used to get through (100 body bytes, header says 5,
    limit 10) is dropped as invalid, and one that tells the truth is refused *)
-Lemma udp_former_witness :
-  serve pinned_sites Udp 10 (Some 5) 100 false = (Malformed, []) /\
-  serve pinned_sites Udp 10 (Some 100) 100 true = (RejectInBand, []).
-Proof. repeat split. Qed.
+Lemma udp_former_witness : forall k,
+  serve pinned_sites Udp 10 k (Some 5) 100 false = (Malformed, []) /\
+  serve pinned_sites Udp 10 k (Some 100) 100 true = (RejectInBand, []).
+Proof. intros k. repeat split. Qed.
 
 (* ================================================================================ *)
 (* level B: the byte-level receive functions of Model/Frame.v                         *)
@@ -241,17 +252,22 @@ Lemma stream_within_limit max s :
 Proof. apply recv_loop_within_limit. Qed.
 
 (* the verdict on the first frame of a stream: level A is the projection of the receive loop *)
-Lemma sock_refines max d i (body : list byte) :
-  0 <= d < 2147483648 -> 0 <= i < 2147483648 ->
+(* EVERY index word (32 bits: bit 31, the flag the server's parseHeader reports as !ok, set or
+   clear) and every length field: the header space is the whole of what passes the checksum *)
+Lemma sock_refines max d i k (body : list byte) :
+  0 <= d < 2147483648 -> 0 <= i < 4294967296 ->
   sock_server_verdict max (sock_make_header d i ++ body) =
-  admission pinned_sites Tcp max (Some d) (Z.of_nat (List.length body)).
+  admission pinned_sites Tcp max k (Some d) (Z.of_nat (List.length body)).
 Proof.
   intros Hd Hi. unfold sock_server_verdict, recv_frames.
   remember (List.length (sock_make_header d i ++ body)) as fuel eqn:Hfuel. clear Hfuel.
   cbn [recv_loop].
   rewrite <- (sock_make_header_length d i) at 1. rewrite read_exact_app.
-  rewrite sock_roundtrip by lia.
-  unfold is_reject. cbn [negb]. rewrite !andb_false_r.
+  rewrite sock_roundtrip_gen by lia.
+  unfold is_reject.
+  assert (Hidx : ((i mod 4294967296) mod 2147483648 =? -1) = false).
+  { apply Z.eqb_neq. pose proof (Z.mod_pos_bound (i mod 4294967296) 2147483648 ltac:(lia)). lia. }
+  rewrite Hidx, andb_false_r, andb_false_l.
   unfold admission, over. cbn [pinned_sites has existsb quantity_eqb orb andb].
   destruct (d >? max) eqn:Em; [reflexivity|].
   destruct (read_exact (Z.to_nat d) body) as [[b s2]|] eqn:Eb.
@@ -264,8 +280,8 @@ Proof.
     destruct (Z.ltb_spec (Z.of_nat (List.length body)) d) as [_|Hge]; [reflexivity|lia].
 Qed.
 
-Lemma tcp_unix_same sites max decl sent :
-  sites Tcp = sites Unix -> admission sites Tcp max decl sent = admission sites Unix max decl sent.
+Lemma tcp_unix_same sites max k decl sent :
+  sites Tcp = sites Unix -> admission sites Tcp max k decl sent = admission sites Unix max k decl sent.
 Proof. intros H. unfold admission. rewrite H. reflexivity. Qed.
 
 (* the reject frame the server writes is what the client turns into ErrRequestEntityTooLarge *)
@@ -305,16 +321,20 @@ Proof.
   injection H as _ <-. rewrite Z.gtb_ltb in Em. apply Z.ltb_ge in Em. exact Em.
 Qed.
 
-Lemma ws_refines max i (body : list byte) : 0 <= i < 2147483648 ->
+(* every index word: with bit 31 set the message is refused as invalid before the limit test *)
+Lemma ws_refines max i k (body : list byte) : 0 <= i < 4294967296 ->
+  r_flag k = negb (i <? 2147483648) ->
   ws_server_verdict max (ws_frame i body) =
-  admission pinned_sites Websocket max None (Z.of_nat (List.length body)).
+  admission pinned_sites Websocket max k None (Z.of_nat (List.length body)).
 Proof.
-  intros Hi. unfold ws_server_verdict, ws_frame. pose proof (ws_roundtrip_gen i) as H.
+  intros Hi Hk. unfold ws_server_verdict, ws_frame. pose proof (ws_roundtrip_gen i) as H.
   destruct (ws_make_header i) as [|a0 [|a1 [|a2 [|a3 [|]]]]]; try contradiction.
   cbn [app ws_recv]. rewrite H.
-  rewrite (Z.mod_small i 4294967296) by lia. rewrite Z.mod_small by lia.
+  rewrite (Z.mod_small i 4294967296) by lia.
+  unfold admission, over. rewrite Hk.
+  destruct (Z.ltb_spec i 2147483648); cbn [negb]; [|reflexivity].
+  cbn [framed pinned_sites has existsb quantity_eqb orb andb]. rewrite Hk.
   destruct (Z.ltb_spec i 2147483648); [|lia]. cbn [negb].
-  unfold admission, over. cbn [framed pinned_sites has existsb quantity_eqb orb andb].
   destruct (Z.of_nat (List.length body) >? max); reflexivity.
 Qed.
 
@@ -326,10 +346,11 @@ Qed.
 
 (* ---- udp ---- *)
 
-Lemma udp_refines max buf d i (body : list byte) :
-  0 <= d < 65536 -> 0 <= i < 32768 -> (8 + List.length body <= List.length buf)%nat ->
+(* every index word (16 bits, flag bit 15 set or clear) *)
+Lemma udp_refines max buf d i k (body : list byte) :
+  0 <= d < 65536 -> 0 <= i < 65536 -> (8 + List.length body <= List.length buf)%nat ->
   udp_server_verdict max buf (udp_make_header d i ++ body) =
-  admission pinned_sites Udp max (Some d) (Z.of_nat (List.length body)).
+  admission pinned_sites Udp max k (Some d) (Z.of_nat (List.length body)).
 Proof.
   intros Hd Hi Hfit. unfold udp_server_verdict, udp_recv.
   set (hd := udp_make_header d i).
@@ -338,8 +359,11 @@ Proof.
   rewrite app_length, Hhd. destruct (Nat.ltb_spec (8 + List.length body) 8) as [|_]; [lia|].
   rewrite <- app_assoc.
   assert (F : forall x, firstn 8 (hd ++ x) = hd) by (intros x; rewrite <- Hhd; apply firstn_app_exact).
-  rewrite F. subst hd. rewrite udp_roundtrip by lia.
-  unfold is_reject. cbn [negb]. rewrite !andb_false_r.
+  rewrite F. subst hd. rewrite udp_roundtrip_gen by lia.
+  unfold is_reject.
+  assert (Hidx : ((i mod 65536) mod 32768 =? -1) = false).
+  { apply Z.eqb_neq. pose proof (Z.mod_pos_bound (i mod 65536) 32768 ltac:(lia)). lia. }
+  rewrite Hidx, andb_false_r, andb_false_l.
   unfold admission, over. cbn [pinned_sites has existsb quantity_eqb orb andb]. rewrite orb_false_r.
   replace (Z.of_nat (8 + List.length body) - 8) with (Z.of_nat (List.length body)) by lia.
   destruct (d =? Z.of_nat (List.length body)); cbn [negb]; [|reflexivity].
@@ -396,10 +420,11 @@ Qed.
 
 (* ---- net/http ---- *)
 
-Lemma http_refines max decl (wire : list byte) :
+(* every method: the handler does not look at it before the limit tests *)
+Lemma http_refines max k decl (wire : list byte) :
   match decl with Some d => 0 <= d | None => True end ->
   http_server_verdict max decl wire =
-  admission pinned_sites NetHttp max decl (Z.of_nat (List.length wire)).
+  admission pinned_sites NetHttp max k decl (Z.of_nat (List.length wire)).
 Proof.
   intros Hd. unfold http_server_verdict, http_read_all, admission, over.
   cbn [pinned_sites has existsb quantity_eqb orb andb].
@@ -428,27 +453,30 @@ Lemma frames_at_limit_delivered max fs : Forall (wf_frame (Server max)) fs ->
 Proof. apply stream_framing. Qed.
 
 (* ---- end to end: oversize request -> refused -> the caller's error ---- *)
-Lemma oversize_end_to_end (sites : site_table) tr max decl sent n valid :
-  covers tr (sites tr) = true -> framed tr decl sent = Some n -> n > max ->
-  snd (serve sites tr max decl sent valid) = [] /\
-  client_decode (reply_of (admission sites tr max decl sent)) = OTooLarge.
+Lemma oversize_end_to_end (sites : site_table) tr max k decl sent n valid :
+  covers tr (is_none decl) (sites tr k (is_none decl)) = true -> framed tr k decl sent = Some n -> n > max ->
+  snd (serve sites tr max k decl sent valid) = [] /\
+  client_decode (reply_of (admission sites tr max k decl sent)) = OTooLarge.
 Proof.
-  intros Hc Hf Hn. pose proof (never_processed_covered sites tr max decl sent n Hc Hf Hn) as R.
+  intros Hc Hf Hn. pose proof (never_processed_covered sites tr max k decl sent n Hc Hf Hn) as R.
   split; [apply rejected_log_empty; exact R|apply caller_sees_too_large; exact R].
 Qed.
 
 (* the socket server, byte level: a header announcing more than the limit is answered with the
    error frame before a single body byte is read, whatever follows it *)
 Lemma sock_oversize_bytes max d i rest :
-  0 <= d < 2147483648 -> 0 <= i < 2147483648 -> d > max ->
-  recv_frames (Server max) (sock_make_header d i ++ rest) = ([], EndTooLarge i).
+  0 <= d < 2147483648 -> 0 <= i < 4294967296 -> d > max ->
+  recv_frames (Server max) (sock_make_header d i ++ rest) = ([], EndTooLarge (i mod 2147483648)).
 Proof.
   intros Hd Hi Hm. unfold recv_frames.
   remember (List.length (sock_make_header d i ++ rest)) as fuel eqn:Hfuel. clear Hfuel.
   cbn [recv_loop].
   rewrite <- (sock_make_header_length d i) at 1. rewrite read_exact_app.
-  rewrite sock_roundtrip by lia.
-  unfold is_reject. cbn [negb]. rewrite !andb_false_r.
+  rewrite sock_roundtrip_gen by lia. rewrite (Z.mod_small i 4294967296) by lia.
+  unfold is_reject.
+  assert (Hidx : (i mod 2147483648 =? -1) = false).
+  { apply Z.eqb_neq. pose proof (Z.mod_pos_bound i 2147483648 ltac:(lia)). lia. }
+  rewrite Hidx, andb_false_r, andb_false_l.
   destruct (Z.gtb_spec d max); [reflexivity|lia].
 Qed.
 
